@@ -436,7 +436,7 @@ fn main() {
         "check" => {
             let prop = arg(&args, "--prop").unwrap_or_else(|| "C19".into());
             let thorough = arg(&args, "--tier").as_deref() == Some("thorough");
-            let secs: u64 = arg(&args, "--secs").and_then(|s| s.parse().ok()).unwrap_or(if thorough { 1500 } else { 50 });
+            let secs: u64 = arg(&args, "--secs").and_then(|s| s.parse().ok()).unwrap_or(if thorough { 900 } else { 50 });
             let depth: usize = arg(&args, "--depth").and_then(|s| s.parse().ok()).unwrap_or(if thorough { 8 } else { 6 });
             let deadline = Instant::now() + Duration::from_secs(secs);
             let t0 = Instant::now();
